@@ -39,9 +39,13 @@ class EcoreUtils(object):
             return True
         # EClassifier (the metaclass level) also takes the Python classes of
         # static metamodels; an EClass or EDataType *instance* used as a type
-        # inherits that hook but must not answer for it
+        # inherits that hook but must not answer for it; and a classifier
+        # that is no instance of the type (an EDataType offered where an
+        # EClass is expected) has been judged above
         try:
-            return _isinstance(_type, type) and _type.__isinstance__(obj)
+            return _isinstance(_type, type) \
+                and not _isinstance(obj, EObject) \
+                and _type.__isinstance__(obj)
         except AttributeError:
             return False
 
